@@ -1,5 +1,6 @@
 import JominiModel.Proofs.BinTapeTotal
 import JominiModel.Proofs.BinReader
+import JominiModel.Proofs.TextTapeTotal
 import JominiModel.Props.C12
 import JominiModel.Props.C17
 /-
@@ -27,6 +28,14 @@ theorem C05_bintape_total (opt : Bool) (data : Bytes) :
    (BinTape.C05_bintape_fuel_enough opt data).1⟩
 
 example : BinTape.parse true [0x2d, 0x28, 1, 0, 3, 0, 4, 0] ≠ .error .ub := (C05_bintape_total true _).1
+
+/-- Text tape parser (`TextTape::from_slice`): for EVERY byte string the model returns a tape or
+an error -- none of the `len() - 1`, `len() - 2`, `offset - 1`, `tape[i] =`, `insert(len - 1)`,
+`split_at`, `&d[1..]`, `data[0]` sites is reached with its guard violated, and the fuel `2|d|+4`
+(at most one non-consuming iteration in a row) is enough. -/
+theorem C05_texttape_total (input : Bytes) :
+    (∃ T b, TextTape.parse input = .ok T b) ∨ (∃ e, TextTape.parse input = .err e) :=
+  TextTape.parse_total input
 
 /-- Streaming binary reader over the buffer window: for every input, every read schedule (short
 reads, transient and persistent faults) and every buffer that can hold the largest token, no call
